@@ -36,7 +36,9 @@ RULE = ("cases: fields generated from random.Random(seed) on periodic Cartesian 
         "implementation is run on the field and on its variants scaled by every factor of spectrum_common.SCALE_FACTORS (-3.5 .. +-1e-9, 1e-11, 1e-130, +-1e9, 1e145; 1e-150 excluded: gradual underflow of the squares), rolled, flipped, axis-permuted and stretched, "
         "smoothing None / explicit / auto, add_zero on/off; compared with (i) the model assembled from the generated "
         "lines (rel 1e-12), (ii) the property-text formulas (wave numbers rel 1e-12, values rel 1e-9 + 1e-12, "
-        "(k, sf) multisets); numpy's fftn is checked against dft_spec to 1e-12 on every sample; distinct = distinct "
+        "(k, sf) multisets); SEQUENCES: grids sharing the shape and an aggregate (swapped spacings, mean spacing, "
+        "volume, longest side, shape only) analysed interleaved, repeated and after raising calls -- every result must equal "
+        "the first result in a fresh interpreter; numpy's fftn is checked against dft_spec to 1e-12 on every sample; distinct = distinct "
         "case descriptions, all non-trivial (non-constant field, at least 2 cells)")
 
 SCALES = [0.03125, 0.25, 0.5, 2.0, 8.0, 32.0]
@@ -340,6 +342,9 @@ def check(ctx: vlib.Ctx) -> int:
     if gen_ok and ok:
         _sample_goals(ctx, rng, py, consts)
         _fftfreq_cases(ctx)
+    # --- sequence dimension: reference interpreters run concurrently with the streams below
+    seq_groups = sc.collision_groups(rng, ctx.scale(5, 15))
+    seq_procs = sc.start_fresh_references(seq_groups, "structure factor")
     # --- correspondence, oracle-spec and property oracle on generated fields
     n = ctx.scale(120, 1200)
     if ctx.broken or fell_back:
@@ -375,6 +380,7 @@ def check(ctx: vlib.Ctx) -> int:
         except Exception as e:  # noqa: BLE001
             failures.append({"what": f"get_structure_factor raises or returns a result of the wrong kind: {type(e).__name__}",
                              "input": sc.canon(c), "error": str(e)[:300]})
+    failures.extend(sc.sequence_oracle(ctx, rng, seq_groups, seq_procs, "C16", "structure factor"))
     for name, c in spec_bad.items():
         ctx.broken.append(f"oracle-spec:{'fftn' if name not in ('fftfreq', 'linspace') else name} "
                           f"{'numpy differs from the mathematical DFT (direct evaluation)' if name == 'definition' else 'premise ' + name} fails "
